@@ -12,11 +12,14 @@ PROP = {'lean_props': ['Comrak.Props.C19'],
                        'unescapeText_escape',
                        'escape_injective',
                        'hrefDecode_escapeHref_partial',
+                       'hrefDecode_escapeHref_noPctEscape',
+                       'escapeHref_injective_noPctEscape',
                        'openTag_complete',
                        'escapeHref_decode_equiv'],
  'strength': "full for the text escaper and the tag writer (openTag_complete: for valid names and arbitrary values the recogniser reads back exactly "
              "one complete start tag with the same name and values; raw-name counterexample); href escaper: literal injectivity refuted (by design), "
-             "proved on inputs without '%', and for every byte string the escaped form decodes (entities, then percent) to the percent-decoding of "
+             "proved on inputs in which no '%' is followed by two hex digits (escapeHref_injective_noPctEscape; the class without any '%' is inside it, and "
+             "one '%XY' is enough for a collision), and for every byte string the escaped form decodes (entities, then percent) to the percent-decoding of "
              "the input (escapeHref_decode_equiv); length bounds are C06.escape_len / escapeHref_len",
  'assumptions': ['io::Write error paths are not modelled (writers are Vec<u8>)']}
 
@@ -24,7 +27,7 @@ TEXT = {'text_added': 'Exhaustive over runs: every length 0..160 (0..700 for two
  'text': 'Proof. escape/escape_href/write_opening_tag are modelled completely (per-byte specification and loop-shaped forms); homomorphism, '
          'no-active-character, output alphabet and the decoder round trip are Lean theorems for every byte string. The literal round trip of the '
          "href escaper is refuted by a Lean witness (by design: '%' is in the safe set) and recorded as a known finding; injectivity is proved on "
-         "inputs without '%', and for every byte string entity-decoding then percent-decoding the output equals percent-decoding the input "
+         "inputs in which no '%' is followed by two hex digits (any number of other '%'), so the only collisions are with text already reading as a percent escape, and for every byte string entity-decoding then percent-decoding the output equals percent-decoding the input "
          "(nothing is lost up to percent-decoding; the swapped decoder order is refuted). The tag writer: for a valid element name, valid "
          "attribute names and arbitrary values, the start-tag recogniser accepts the written bytes as exactly one complete start tag and returns "
          "the same name and values (openTag_complete), so the writer is injective; raw names are the caller's obligation (counterexample). "
